@@ -842,6 +842,9 @@ def reach_with_flags(cfg, start_ids, avoid=(), exc=False, env=None):
                 if tv is not None:
                     envd[a.targets[0].id] = tv
                     envd[f'{a.targets[0].id} is None'] = isinstance(a.value, ast.Constant) and a.value.value is None
+                elif isinstance(a.value, ast.Call) and (dotted(a.value.func) or '').rpartition('.')[2].endswith(('Error', 'Exception')):
+                    envd[a.targets[0].id] = True          # `error = ConfigError(...)`: an exception object, neither None nor falsy
+                    envd[f'{a.targets[0].id} is None'] = False
                 elif isinstance(a.value, ast.Name) and a.value.id in env_d0(env):
                     # a copy of a name whose state is known (`failure = e` in `except ... as e`)
                     d0 = env_d0(env)
